@@ -8,6 +8,11 @@ records of the earlier message are COPIED (TlvStream::range over its bytes), nev
   offers/invoice.rs          UnsignedBolt12Invoice::new   + unsigned_invoice_sign_method!
   offers/{offer,invoice_request,invoice}.rs  the range constants the copies use
 
+  offers/static_invoice.rs   UnsignedStaticInvoice::new   + UnsignedStaticInvoice::sign
+  offers/invoice_request.rs / offers/invoice.rs  TryFrom<Vec<u8>> for UnsignedInvoiceRequest / UnsignedBolt12Invoice:
+      WHERE the re-parsed unsigned bytes are split into `bytes` / `experimental_bytes` (the range handed to
+      `TlvStream::range(..).last()...end` + `split_off`), emitted as the predicates invreqSplitIn / invoiceSplitIn
+
 Output: the range constants and, per message, the PLAN = the sequence of writes in source order
 (`own` = a tlv_stream! struct of the message itself, `copy lo hi` = every record of the source bytes
 in lo..hi, `copyRest lo hi` = the same over `remaining_bytes` (the source after the bytes copied so
@@ -94,6 +99,66 @@ def main():
            (r'experimental_invoice_tlv_stream\.write\(&mut experimental_bytes\)\.unwrap\(\);', ('own', 'expOwn')),
            (r'TlvStream::new\(&bytes\)\.chain\(TlvStream::new\(&experimental_bytes\)\)', ('hash',))]
     p_inv = plan_of(body, 'invreq_bytes', stm, 'UnsignedBolt12Invoice::new')
+    # ---------------- UnsignedStaticInvoice::new + sign (a plain method, not a macro)
+    sinv = rd('lightning/src/offers/static_invoice.rs')
+    m = re.search(r'impl UnsignedStaticInvoice \{\s*fn new\(offer_bytes: &Vec<u8>, contents: InvoiceContents\) -> Self', sinv)
+    if not m: raise TErr('cannot find UnsignedStaticInvoice::new(offer_bytes, contents)')
+    k = sinv.index('{', m.end()); body = ws(sinv[k:match_brace(sinv, k)])
+    stm = [(r'for record in TlvStream::new\(offer_bytes\)\.range\((\w+)\) \{ record\.write\(&mut bytes\)\.unwrap\(\); \}', ('copy',)),
+           (r'let remaining_bytes = &offer_bytes\[bytes\.len\(\)\.\.\];', ('rest',)),
+           (r'invoice_tlv_stream\.write\(&mut bytes\)\.unwrap\(\);', ('own', 'own')),
+           (r'let experimental_tlv_stream = TlvStream::new\(remaining_bytes\)\.range\((\w+)\); for record in experimental_tlv_stream \{ record\.write\(&mut experimental_bytes\)\.unwrap\(\); \}', ('copyRest',)),
+           (r'experimental_invoice_tlv_stream\.write\(&mut experimental_bytes\)\.unwrap\(\);', ('own', 'expOwn')),
+           (r'TlvStream::new\(&bytes\)\.chain\(TlvStream::new\(&experimental_bytes\)\)', ('hash',))]
+    p_sinv = plan_of(body, 'offer_bytes', stm, 'UnsignedStaticInvoice::new')
+    m = re.search(r'pub fn sign<F: SignStaticInvoiceFn>\(mut self, sign: F\) -> Result<StaticInvoice, SignError>', sinv)
+    if not m: raise TErr('cannot find UnsignedStaticInvoice::sign')
+    k = sinv.index('{', m.end()); b = ws(sinv[k:match_brace(sinv, k)])
+    if not re.search(r'signature_tlv_stream\.write\(&mut self\.bytes\)\.unwrap\(\); self\.bytes\.extend_from_slice\(&self\.experimental_bytes\);', b):
+        raise TErr('UnsignedStaticInvoice::sign: `signature_tlv_stream.write(&mut self.bytes)` directly followed by `self.bytes.extend_from_slice(&self.experimental_bytes)` not found')
+    if len(re.findall(r'\.write\(&mut ', b)) != 1 or len(re.findall(r'extend_from_slice', b)) != 1:
+        raise TErr('UnsignedStaticInvoice::sign: unexpected further writes')
+    if not re.search(r'Ok\(StaticInvoice \{ bytes: self\.bytes,', b): raise TErr('UnsignedStaticInvoice::sign: the signed bytes are not `self.bytes`')
+    # ---------------- TryFrom<Vec<u8>> for the unsigned types: where `bytes` is split into bytes / experimental_bytes
+    def u64_const(x):
+        for src in (invreq, inv, offer):
+            mm = re.search(r'const %s: u64 =\s*([\d_]+);' % x, src)
+            if mm: return num(mm.group(1))
+        return None
+    def split_pred(src, ty, what):
+        m = re.search(r'impl TryFrom<Vec<u8>> for %s \{' % ty, src)
+        if not m: raise TErr('cannot find impl TryFrom<Vec<u8>> for %s' % ty)
+        b = ws(src[m.end() - 1:match_brace(src, m.end() - 1)])
+        mm = re.search(r'let ParsedMessage \{ mut bytes, tlv_stream \} = (\w+);', b)
+        if not mm: raise TErr('%s: `let ParsedMessage { mut bytes, tlv_stream } = ..` not found' % what)
+        ms = list(re.finditer(r'let offset = TlvStream::new\(&bytes\) \.range\(([^()]+)\) \.last\(\) \.map_or\(0, \|last_record\| last_record\.end\); let experimental_bytes = bytes\.split_off\(offset\);', b))
+        if len(ms) != 1: raise TErr('%s: expected exactly one `let offset = TlvStream::new(&bytes).range(R).last().map_or(0, |last_record| last_record.end); let experimental_bytes = bytes.split_off(offset);` (found %d)' % (what, len(ms)))
+        h = re.search(r'let tagged_hash = TaggedHash::from_valid_tlv_stream_bytes\(SIGNATURE_TAG, &bytes\);', b)
+        if not h or h.start() > ms[0].start(): raise TErr('%s: the tagged hash is not computed over the whole `bytes` BEFORE split_off' % what)
+        if len(re.findall(r'split_off|truncate|drain|extend_from_slice|\.push\(', b)) != 1: raise TErr('%s: `bytes` is modified by something else than the one split_off' % what)
+        if not re.search(r'Ok\(%s \{ bytes, experimental_bytes, contents, tagged_hash \}\)' % ty, b): raise TErr('%s: result is not `%s { bytes, experimental_bytes, contents, tagged_hash }`' % (what, ty))
+        r = ms[0].group(1).strip()
+        def ev(x):
+            x = x.strip()
+            if re.fullmatch(r'[\d_]+', x): return num(x)
+            q = re.fullmatch(r'([A-Z_]+)\.(start|end)', x)
+            if q and q.group(1) in consts: return consts[q.group(1)][0 if q.group(2) == 'start' else 1]
+            if re.fullmatch(r'[A-Z_]+', x) and u64_const(x) is not None: return u64_const(x)
+            raise TErr('%s: cannot evaluate range bound `%s`' % (what, x))
+        if r in consts: lo, hi, incl = consts[r][0], consts[r][1], False
+        elif '..=' in r:
+            a, c = r.split('..='); lo, hi, incl = (ev(a) if a.strip() else 0), ev(c), True
+        elif '..' in r:
+            a, c = r.split('..')
+            if not c.strip(): raise TErr('%s: open-ended split range `%s`' % (what, r))
+            lo, hi, incl = (ev(a) if a.strip() else 0), ev(c), False
+        else: raise TErr('%s: unrecognised split range `%s`' % (what, r))
+        return 'decide (%d ≤ t) && decide (t %s %d)' % (lo, '≤' if incl else '<', hi), r
+    split_req, split_req_src = split_pred(invreq, 'UnsignedInvoiceRequest', 'TryFrom<Vec<u8>> for UnsignedInvoiceRequest')
+    split_inv, split_inv_src = split_pred(inv, 'UnsignedBolt12Invoice', 'TryFrom<Vec<u8>> for UnsignedBolt12Invoice')
+    if re.search(r'impl TryFrom<Vec<u8>> for UnsignedStaticInvoice', sinv): raise TErr('UnsignedStaticInvoice now has a TryFrom<Vec<u8>>: its split point is not translated yet')
+    sig_m = re.search(r'const SIGNATURE_TYPES: core::ops::RangeInclusive<u64> =\s*([\d_]+)\s*\.\.=\s*([\d_]+);', rd('lightning/src/offers/merkle.rs'))
+    if not sig_m: raise TErr('cannot find SIGNATURE_TYPES in merkle.rs')
     # ---------------- the sign methods: bytes ‖ signature ‖ experimental_bytes
     for src, mac, what in [(invreq, 'unsigned_invoice_request_sign_method', 'invoice_request.rs'), (inv, 'unsigned_invoice_sign_method', 'invoice.rs')]:
         m = re.search(r'macro_rules! %s \{' % mac, src)
@@ -141,11 +206,19 @@ def main():
           'def invreqPlan : List Seg := [%s]' % ', '.join(emit(p_req, consts, 'UnsignedInvoiceRequest::new')), '',
           '/-- invoice.rs UnsignedBolt12Invoice::new (source = the invoice request / refund bytes) + sign -/',
           'def invoicePlan : List Seg := [%s]' % ', '.join(emit(p_inv, local, 'UnsignedBolt12Invoice::new')), '',
+          '/-- static_invoice.rs UnsignedStaticInvoice::new (source = the offer bytes) + sign -/',
+          'def staticInvoicePlan : List Seg := [%s]' % ', '.join(emit(p_sinv, consts, 'UnsignedStaticInvoice::new')), '',
+          '/-- merkle.rs SIGNATURE_TYPES (inclusive) -/',
+          'def SIGNATURE_TYPES_LO : Nat := %d' % num(sig_m.group(1)), 'def SIGNATURE_TYPES_HI : Nat := %d' % num(sig_m.group(2)), '',
+          '/-- invoice_request.rs TryFrom<Vec<u8>> for UnsignedInvoiceRequest: a record type is in the range `%s` whose last record ends `bytes` (the rest becomes `experimental_bytes`) -/' % split_req_src,
+          'def invreqSplitIn (t : Nat) : Bool := %s' % split_req, '',
+          '/-- invoice.rs TryFrom<Vec<u8>> for UnsignedBolt12Invoice: the same, range `%s` -/' % split_inv_src,
+          'def invoiceSplitIn (t : Nat) : Bool := %s' % split_inv, '',
           'end Ldk.C18Mirror', '']
     text = '\n'.join(L)
     if not os.path.exists(OUT) or open(OUT).read() != text:
         open(OUT, 'w').write(text)
-    print('gen_c18_mirror: ok (2 plans, 12 constants)')
+    print('gen_c18_mirror: ok (3 plans, 2 split ranges, 14 constants)')
 
 if __name__ == '__main__':
     try:
